@@ -245,3 +245,333 @@ Proof.
       { apply HD. destruct Hdis as [[H1 H2] | [H1 H2]]; [left | right]; lra. }
       lia.
 Qed.
+
+(** ** unit scale, whole-pixel shift: the paste identity (C10 core) *)
+Lemma Qltb_inj0 (T : Z) t : t == inject_Z T -> Qltb t 0 = (T <? 0)%Z.
+Proof.
+  intros E. destruct (T <? 0)%Z eqn:H.
+  - apply Qltb_true. rewrite E. change 0 with (inject_Z 0). rewrite <- Zlt_Qlt. lia.
+  - apply Qltb_false. rewrite E. change 0 with (inject_Z 0). rewrite <- Zle_Qle. lia.
+Qed.
+
+Lemma axis_core_unit Ns Nd (T : Z) s t :
+  s == 1 -> t == inject_Z T ->
+  axis_core Ns Nd s t =
+  (if (T <? 0)%Z then 0%Z else Z.min T Ns,
+   if (Nd + T <=? Ns)%Z then Z.max (Nd + T) 0 else Ns,
+   if (T <? 0)%Z then Z.min (- T) Nd else 0%Z,
+   if (Nd + T <=? Ns)%Z then Nd else Z.max 0 (Ns - T))%Z.
+Proof.
+  intros Es Et. rewrite axis_core_eq. cbv zeta.
+  rewrite (Qltb_inj0 T t Et).
+  assert (E1 : Qfloor t = T) by (rewrite Et; apply Qfloor_Z).
+  assert (E2 : Qfloor (- t * (1 / s)) = (- T)%Z).
+  { assert (E : - t * (1 / s) == inject_Z (- T)) by (rewrite Es, Et, inject_Z_opp; field).
+    rewrite E. apply Qfloor_Z. }
+  assert (E3 : Qceiling (inject_Z Nd * s + t) = (Nd + T)%Z).
+  { assert (E : inject_Z Nd * s + t == inject_Z (Nd + T)) by (rewrite Es, Et, inject_Z_plus; ring).
+    rewrite E. apply Qceiling_Z. }
+  assert (E4 : Qceiling (inject_Z Ns * (1 / s) + - t * (1 / s)) = (Ns - T)%Z).
+  { assert (E : inject_Z Ns * (1 / s) + - t * (1 / s) == inject_Z (Ns - T)).
+    { unfold Z.sub. rewrite Es, Et, inject_Z_plus, inject_Z_opp. field. }
+    rewrite E. apply Qceiling_Z. }
+  rewrite E1, E2, E3, E4. reflexivity.
+Qed.
+
+(** index of the source element copied to destination position [d] by
+    [dst[dst_sl] = src[src_sl]] (reversed when mirrored) *)
+Definition paste_index (src dst : Z * Z) (flip : bool) (d : Z) : Z :=
+  if flip then (snd src - 1 - (d - fst dst))%Z else (fst src + (d - fst dst))%Z.
+
+Lemma axis_overlap_unit Ns Nd (T : Z) (flip : bool) :
+  (0 <= Ns)%Z -> (0 <= Nd)%Z ->
+  let s := if flip then inject_Z (-1) else inject_Z 1 in
+  let nn := fun d => if flip then (T - 1 - d)%Z else (d + T)%Z in
+  exists src dst, axis_overlap Ns Nd s (inject_Z T) = Ok (src, dst) /\
+    (snd src - fst src = snd dst - fst dst)%Z /\
+    (forall d, (0 <= d < Nd)%Z -> (in_sl dst d <-> (0 <= nn d < Ns)%Z)) /\
+    (forall d, in_sl dst d -> paste_index src dst flip d = nn d).
+Proof.
+  intros HNs HNd s nn. unfold axis_overlap, s, nn, paste_index, in_sl. destruct flip.
+  - assert (E1 : Qltb (inject_Z (-1)) 0 = true) by reflexivity. rewrite E1.
+    assert (E2 : Qltb 0 (- inject_Z (-1)) = true) by reflexivity. rewrite E2. cbn [negb].
+    rewrite (axis_core_unit Ns Nd (Ns - T)%Z).
+    2: reflexivity.
+    2: unfold Z.sub; rewrite inject_Z_plus, inject_Z_opp; ring.
+    eexists; eexists; split; [reflexivity|]. cbn [fst snd].
+    destruct (Ns - T <? 0)%Z eqn:A; [apply Z.ltb_lt in A | apply Z.ltb_ge in A];
+    (destruct (Nd + (Ns - T) <=? Ns)%Z eqn:B; [apply Z.leb_le in B | apply Z.leb_gt in B]);
+    repeat split; intros; lia.
+  - assert (E1 : Qltb (inject_Z 1) 0 = false) by reflexivity. rewrite E1.
+    assert (E2 : Qltb 0 (inject_Z 1) = true) by reflexivity. rewrite E2. cbn [negb].
+    rewrite (axis_core_unit Ns Nd T).
+    2: reflexivity.
+    2: reflexivity.
+    eexists; eexists; split; [reflexivity|]. cbn [fst snd].
+    destruct (T <? 0)%Z eqn:A; [apply Z.ltb_lt in A | apply Z.ltb_ge in A];
+    (destruct (Nd + T <=? Ns)%Z eqn:B; [apply Z.leb_le in B | apply Z.leb_gt in B]);
+    repeat split; intros; lia.
+Qed.
+
+(** the nearest-neighbour source index of the TRUE transform equals the pasted one
+    as long as the true location is less than half a pixel from the snapped one *)
+Lemma nn_floor_unit (T d : Z) (flip : bool) (x : Q) :
+  let s := if flip then inject_Z (-1) else inject_Z 1 in
+  Qabs (x - (s * (inject_Z d + (1#2)) + inject_Z T)) < 1#2 ->
+  Qfloor x = if flip then (T - 1 - d)%Z else (d + T)%Z.
+Proof.
+  intros s H. apply Qabs_Qlt_condition in H. destruct H as [H1 H2].
+  destruct (Qfloor_spec x) as (f & Ef & F1 & F2).
+  destruct flip; unfold s in *.
+  - assert (E : inject_Z (-1) * (inject_Z d + (1 # 2)) + inject_Z T == inject_Z (T - 1 - d) + (1#2)).
+    { unfold Z.sub. rewrite !inject_Z_plus, !inject_Z_opp. change (inject_Z (-1)) with (-(1)). change (inject_Z 1) with 1. ring. }
+    rewrite E in H1, H2.
+    assert (T - 1 - d <= Qfloor x)%Z by (apply Qfloor_ge_iff; lra).
+    assert (Qfloor x < T - 1 - d + 1)%Z by (apply Qfloor_lt_iff; rewrite inject_Z_plus; change (inject_Z 1) with 1; lra).
+    lia.
+  - assert (E : inject_Z 1 * (inject_Z d + (1 # 2)) + inject_Z T == inject_Z (d + T) + (1#2)).
+    { rewrite !inject_Z_plus. change (inject_Z 1) with 1. ring. }
+    rewrite E in H1, H2.
+    assert (d + T <= Qfloor x)%Z by (apply Qfloor_ge_iff; lra).
+    assert (Qfloor x < d + T + 1)%Z by (apply Qfloor_lt_iff; rewrite inject_Z_plus; change (inject_Z 1) with 1; lra).
+    lia.
+Qed.
+
+(** ** odc.geo.math helpers: split_float, maybe_int, is_almost_int *)
+Lemma Qltb_comp x x' y y' : x == x' -> y == y' -> Qltb x y = Qltb x' y'.
+Proof. intros E1 E2. unfold Qltb. rewrite E1, E2. reflexivity. Qed.
+
+Lemma Qtrunc_comp x y : x == y -> Qtrunc x = Qtrunc y.
+Proof.
+  intros E. unfold Qtrunc. rewrite (Qltb_comp x y 0 0 E (Qeq_refl 0)).
+  destruct (Qltb y 0); rewrite E; reflexivity.
+Qed.
+
+Lemma Qtrunc_Z z : Qtrunc (inject_Z z) = z.
+Proof. unfold Qtrunc. destruct (Qltb _ _); [apply Qceiling_Z | apply Qfloor_Z]. Qed.
+
+Lemma fmod1_spec x :
+  exists z, z = Qtrunc x /\ fmod1 x == x - inject_Z z /\
+    ((0 <= x /\ 0 <= fmod1 x /\ fmod1 x < 1) \/ (x < 0 /\ -(1) < fmod1 x /\ fmod1 x <= 0)).
+Proof.
+  exists (Qtrunc x). split; [reflexivity|]. split; [reflexivity|].
+  unfold fmod1, Qtrunc.
+  destruct (Qltb x 0) eqn:E; [apply Qltb_true in E | apply Qltb_false in E].
+  - right. destruct (Qceiling_spec x) as (c & Ec & C1 & C2). rewrite <- Ec. lra.
+  - left. destruct (Qfloor_spec x) as (f & Ef & F1 & F2). rewrite <- Ef. lra.
+Qed.
+
+Lemma split_float_spec x :
+  exists z, fst (split_float x) == inject_Z z /\ x == inject_Z z + snd (split_float x) /\
+            - half <= snd (split_float x) /\ snd (split_float x) <= half.
+Proof.
+  unfold split_float, half.
+  destruct (fmod1_spec x) as (z & Ez & Ep & Hr).
+  set (p := fmod1 x) in *. clearbody p.
+  destruct (Qltb (1#2) p) eqn:E1; [apply Qltb_true in E1 | apply Qltb_false in E1].
+  - exists (z + 1)%Z. cbn [fst snd]. rewrite inject_Z_plus. change (inject_Z 1) with 1.
+    repeat split; try lra.
+  - destruct (Qltb p (- (1#2))) eqn:E2; [apply Qltb_true in E2 | apply Qltb_false in E2].
+    + exists (z - 1)%Z. cbn [fst snd]. unfold Z.sub. rewrite inject_Z_plus, inject_Z_opp. change (inject_Z 1) with 1.
+      repeat split; try lra.
+    + exists z. cbn [fst snd]. repeat split; try lra.
+Qed.
+
+Lemma maybe_int_opt_some x tol z :
+  maybe_int_opt x tol = Some z -> Qabs (x - inject_Z z) < tol /\ Qabs (x - inject_Z z) <= half.
+Proof.
+  unfold maybe_int_opt. destruct (split_float_spec x) as (w & Ew & Ex & P1 & P2).
+  destruct (split_float x) as [whole part]. cbn [fst snd] in *.
+  destruct (Qltb (Qabs part) tol) eqn:E; [|discriminate].
+  intros H; injection H as <-. apply Qltb_true in E.
+  rewrite (Qtrunc_comp _ _ Ew), Qtrunc_Z.
+  assert (Ep : x - inject_Z w == part) by lra. rewrite Ep. split; [exact E|].
+  apply Qabs_Qle_condition. unfold half in *. lra.
+Qed.
+
+Lemma maybe_int_opt_none x tol :
+  maybe_int_opt x tol = None -> forall z : Z, tol <= Qabs (x - inject_Z z).
+Proof.
+  unfold maybe_int_opt. destruct (split_float_spec x) as (w & Ew & Ex & P1 & P2).
+  destruct (split_float x) as [whole part]. cbn [fst snd] in *.
+  destruct (Qltb (Qabs part) tol) eqn:E; [discriminate|]. intros _ z. apply Qltb_false in E.
+  eapply Qle_trans; [exact E|]. unfold half in *.
+  (* x = w + part with |part| <= 1/2: any integer z is at least |part| away *)
+  destruct (Z_lt_le_dec z w) as [L | L]; [|destruct (Z.eq_dec z w) as [-> | N]].
+  - assert (inject_Z z + 1 <= inject_Z w).
+    { assert (E1 : inject_Z z + 1 == inject_Z (z + 1)) by (rewrite inject_Z_plus; reflexivity).
+      rewrite E1, <- Zle_Qle. lia. }
+    apply Qabs_case; intros; apply Qabs_case; intros; lra.
+  - assert (Ep : x - inject_Z w == part) by lra. rewrite Ep. lra.
+  - assert (inject_Z w + 1 <= inject_Z z).
+    { assert (E1 : inject_Z w + 1 == inject_Z (w + 1)) by (rewrite inject_Z_plus; reflexivity).
+      rewrite E1, <- Zle_Qle. lia. }
+    apply Qabs_case; intros; apply Qabs_case; intros; lra.
+Qed.
+
+Lemma is_almost_int_maybe x tol :
+  is_almost_int x tol = match maybe_int_opt x tol with Some _ => true | None => false end.
+Proof.
+  unfold is_almost_int, maybe_int_opt, split_float, half.
+  destruct (fmod1_spec x) as (z & Ez & Ep & Hr).
+  set (p := fmod1 x) in *. clearbody p.
+  destruct (Qltb (1#2) p) eqn:E1; [apply Qltb_true in E1 | apply Qltb_false in E1].
+  - assert (A1 : Qabs p == p) by (apply Qabs_pos; lra).
+    rewrite (Qltb_comp (1#2) (1#2) (Qabs p) p (Qeq_refl _) A1).
+    assert (T1 : Qltb (1#2) p = true) by (apply Qltb_true; exact E1). rewrite T1.
+    assert (A2 : Qabs (p - 1) == 1 - Qabs p).
+    { rewrite A1. rewrite Qabs_neg by lra. ring. }
+    rewrite (Qltb_comp _ _ tol tol A2 (Qeq_refl _)). destruct (Qltb (1 - Qabs p) tol); reflexivity.
+  - destruct (Qltb p (- (1#2))) eqn:E2; [apply Qltb_true in E2 | apply Qltb_false in E2].
+    + assert (A1 : Qabs p == - p) by (apply Qabs_neg; lra).
+      rewrite (Qltb_comp (1#2) (1#2) (Qabs p) (- p) (Qeq_refl _) A1).
+      assert (T1 : Qltb (1#2) (- p) = true) by (apply Qltb_true; lra). rewrite T1.
+      assert (A2 : Qabs (p + 1) == 1 - Qabs p).
+      { rewrite A1. rewrite Qabs_pos by lra. ring. }
+      rewrite (Qltb_comp _ _ tol tol A2 (Qeq_refl _)). destruct (Qltb (1 - Qabs p) tol); reflexivity.
+    + assert (T1 : Qltb (1#2) (Qabs p) = false).
+      { apply Qltb_false. apply Qabs_Qle_condition. lra. }
+      rewrite T1. destruct (Qltb (Qabs p) tol); reflexivity.
+Qed.
+
+(** ** snapping, read scale, scale from the linear transform *)
+(** an integer within 1/2 of x=±1±e is ±1 *)
+Lemma near_unit_int (s : Q) (z : Z) e :
+  Qabs (Qabs s - 1) < e -> e <= half -> Qabs (s - inject_Z z) <= half ->
+  (0 < s -> z = 1%Z) /\ (s < 0 -> z = (-1)%Z).
+Proof.
+  unfold half. intros H1 He H2.
+  apply Qabs_Qlt_condition in H1. apply Qabs_Qle_condition in H2.
+  split; intros Hs.
+  - rewrite Qabs_pos in H1 by lra.
+    assert (0 < z)%Z by (rewrite Zlt_Qlt; change (inject_Z 0) with 0; lra).
+    assert (z < 2)%Z by (rewrite Zlt_Qlt; change (inject_Z 2) with 2; lra). lia.
+  - rewrite Qabs_neg in H1 by lra.
+    assert (z < 0)%Z by (rewrite Zlt_Qlt; change (inject_Z 0) with 0; lra).
+    assert (-2 < z)%Z by (rewrite Zlt_Qlt; change (inject_Z (-2)) with (-(2)); lra). lia.
+Qed.
+
+Lemma snap_scale_unit s stol :
+  0 < stol -> stol <= half -> Qabs (Qabs s - 1) < stol ->
+  snap_scale s stol = inject_Z (if Qltb s 0 then -1 else 1).
+Proof.
+  unfold half. intros H0 H1 H.
+  assert (H' := H). apply Qabs_Qlt_condition in H'.
+  unfold snap_scale.
+  assert (E : Qle_bool (1 - stol) (Qabs s) = true) by (apply Qle_bool_iff; lra). rewrite E.
+  unfold maybe_int. destruct (maybe_int_opt s stol) as [z|] eqn:Em.
+  - apply maybe_int_opt_some in Em. destruct Em as [_ Em].
+    destruct (near_unit_int s z stol H H1 Em) as [P N].
+    destruct (Qltb s 0) eqn:Es; [apply Qltb_true in Es | apply Qltb_false in Es].
+    + rewrite (N Es). reflexivity.
+    + assert (0 < s).
+      { destruct (Qlt_le_dec 0 s); [assumption|]. assert (s == 0) by lra. rewrite H2 in H'. change (Qabs 0) with 0 in H'. lra. }
+      rewrite (P H2). reflexivity.
+  - exfalso. pose proof (maybe_int_opt_none s stol Em) as Hn.
+    destruct (Qlt_le_dec s 0).
+    + specialize (Hn (-1)%Z). rewrite Qabs_neg in H' by lra.
+      change (inject_Z (-1)) with (-(1)) in Hn.
+      assert (Qabs (s - - (1)) < stol) by (apply Qabs_Qlt_condition; lra). lra.
+    + specialize (Hn 1%Z). rewrite Qabs_pos in H' by lra.
+      change (inject_Z 1) with 1 in Hn.
+      assert (Qabs (s - 1) < stol) by (apply Qabs_Qlt_condition; lra). lra.
+Qed.
+
+Lemma maybe_int_almost x tol :
+  is_almost_int x tol = true ->
+  exists z, maybe_int x tol = inject_Z z /\ Qabs (x - inject_Z z) < tol /\ Qabs (x - inject_Z z) <= half.
+Proof.
+  rewrite is_almost_int_maybe. unfold maybe_int.
+  destruct (maybe_int_opt x tol) as [z|] eqn:E; [|discriminate].
+  intros _. exists z. split; [reflexivity|]. apply maybe_int_opt_some. exact E.
+Qed.
+
+(** _pick_read_scale *)
+Lemma pick_read_scale_spec scale tol k :
+  0 < tol -> pick_read_scale scale tol = Ok k ->
+  0 < scale /\ (1 <= k)%Z /\ (scale < 1 -> k = 1%Z) /\
+  (1 <= scale -> inject_Z k - tol < scale /\ scale < inject_Z k + 1).
+Proof.
+  intros Htol. unfold pick_read_scale.
+  destruct (Qltb 0 scale) eqn:E0; [apply Qltb_true in E0 | discriminate]. cbn [negb].
+  destruct (Qltb scale 1) eqn:E1; [apply Qltb_true in E1 | apply Qltb_false in E1].
+  - intros H; injection H as <-. repeat split; try lra; try lia.
+  - intros H; injection H as <-. split; [exact E0|].
+    unfold maybe_int. destruct (maybe_int_opt scale tol) as [z|] eqn:Em.
+    + rewrite Qtrunc_Z. apply maybe_int_opt_some in Em. destruct Em as [M1 M2].
+      apply Qabs_Qlt_condition in M1. apply Qabs_Qle_condition in M2. unfold half in *.
+      assert (0 < z)%Z by (rewrite Zlt_Qlt; change (inject_Z 0) with 0; lra).
+      repeat split; try lia; try lra.
+    + unfold Qtrunc. assert (Qltb scale 0 = false) by (apply Qltb_false; lra). rewrite H.
+      destruct (Qfloor_spec scale) as (f & Ef & F1 & F2).
+      assert (1 <= Qfloor scale)%Z by (apply Qfloor_ge_iff; change (inject_Z 1) with 1; lra).
+      rewrite <- Ef. repeat split; try lia; try lra.
+Qed.
+
+Lemma pick_read_scale_err scale tol : scale <= 0 -> pick_read_scale scale tol = Err (EAssert 341).
+Proof.
+  intros H. unfold pick_read_scale.
+  assert (E : Qltb 0 scale = false) by (apply Qltb_false; exact H). rewrite E. reflexivity.
+Qed.
+
+(** exact square roots *)
+Lemma exact_sqrt_sound x r : exact_sqrt x = Some r -> 0 <= r /\ r * r == x.
+Proof.
+  unfold exact_sqrt. set (q := Qred x).
+  assert (Eq : q == x) by apply Qred_correct.
+  destruct q as [n d]. cbn [Qnum Qden] in *.
+  destruct (n <? 0)%Z eqn:En; [discriminate|]. apply Z.ltb_ge in En.
+  destruct ((Z.sqrt n * Z.sqrt n =? n) && (Z.sqrt (Z.pos d) * Z.sqrt (Z.pos d) =? Z.pos d))%Z eqn:E; [|discriminate].
+  apply andb_true_iff in E. destruct E as [E1 E2]. apply Z.eqb_eq in E1. apply Z.eqb_eq in E2.
+  intros H; injection H as <-.
+  assert (Hrd : (0 < Z.sqrt (Z.pos d))%Z).
+  { pose proof (Z.sqrt_nonneg (Z.pos d)). destruct (Z.eq_dec (Z.sqrt (Z.pos d)) 0) as [Z0|]; [rewrite Z0 in E2; discriminate | lia]. }
+  split.
+  - unfold Qle. cbn. pose proof (Z.sqrt_nonneg n). lia.
+  - rewrite <- Eq. unfold Qeq, Qmult. cbn [Qnum Qden].
+    rewrite E1, Pos2Z.inj_mul. change (Z.pos (Pos.sqrt d)) with (Z.sqrt (Z.pos d)). rewrite E2. reflexivity.
+Qed.
+
+Lemma Qeq_bool_true x y : Qeq_bool x y = true -> x == y.
+Proof. apply Qeq_bool_eq. Qed.
+
+Lemma scale2_spec A sx sy :
+  scale2 A = Ok (sx, sy) ->
+  0 < sx /\ 0 < sy /\ sx * sx == aa A * aa A + ad A * ad A /\
+  sx * sy == Qabs (aa A * ae A - ab A * ad A).
+Proof.
+  unfold scale2.
+  destruct (Qeq_bool (ab A) 0 && Qeq_bool (ad A) 0) eqn:Est.
+  - apply andb_true_iff in Est. destruct Est as [Eb Ed].
+    apply Qeq_bool_true in Eb. apply Qeq_bool_true in Ed.
+    destruct (Qeq_bool (aa A) 0 || Qeq_bool (ae A) 0) eqn:Ez; [discriminate|].
+    apply orb_false_iff in Ez. destruct Ez as [Za Ze].
+    apply Qeq_bool_neq in Za. apply Qeq_bool_neq in Ze.
+    intros H; injection H as <- <-.
+    assert (Pa : 0 < Qabs (aa A)).
+    { apply Qabs_case; intros; [|]; destruct (Qeq_dec (aa A) 0); try contradiction; lra. }
+    assert (Pe : 0 < Qabs (ae A)).
+    { apply Qabs_case; intros; [|]; destruct (Qeq_dec (ae A) 0); try contradiction; lra. }
+    repeat split; try assumption.
+    + rewrite Ed. apply Qabs_case; intros; ring.
+    + rewrite Eb. rewrite <- Qabs_Qmult. apply Qabs_wd. ring.
+  - destruct (exact_sqrt (aa A * aa A + ad A * ad A)) as [s1|] eqn:E1; [|discriminate].
+    destruct (Qeq_bool s1 0) eqn:Z1; [discriminate|]. apply Qeq_bool_neq in Z1.
+    destruct (exact_sqrt _) as [s2|] eqn:E2 in |- *; [|discriminate].
+    destruct (Qeq_bool s2 0) eqn:Z2; [discriminate|]. apply Qeq_bool_neq in Z2.
+    intros H; injection H as <- <-.
+    apply exact_sqrt_sound in E1. apply exact_sqrt_sound in E2.
+    destruct E1 as [P1 S1]. destruct E2 as [P2 S2].
+    assert (Q1 : 0 < s1) by (destruct (Qeq_dec s1 0); [contradiction | lra]).
+    assert (Q2 : 0 < s2) by (destruct (Qeq_dec s2 0); [contradiction | lra]).
+    repeat split; try assumption.
+    (* (s1 s2)^2 = det^2 and both sides non-negative *)
+    set (a := aa A) in *. set (b := ab A) in *. set (d := ad A) in *. set (e := ae A) in *.
+    assert (Hsq : (s1 * s2) * (s1 * s2) == (a * e - b * d) * (a * e - b * d)).
+    { assert (X : (s1 * s2) * (s1 * s2) == (s1 * s1) * (s2 * s2)) by ring. rewrite X, S2.
+      assert (Y : (s1 * s1) * (b * b + e * e - (a * b + d * e) / s1 * ((a * b + d * e) / s1))
+                  == (s1 * s1) * (b * b + e * e) - (a * b + d * e) * (a * b + d * e)) by (field; exact Z1).
+      rewrite Y, S1. ring. }
+    assert (Hp : 0 < s1 * s2) by (timeout 20 nra).
+    apply Qabs_case; intros Hc; timeout 20 nra.
+Qed.
